@@ -63,4 +63,53 @@ def setVersion (cs : Classes) (fuel c : Nat) (v : Key) : Classes :=
     | some lst => { cs with ownActive := fun x => if x = c then some lst else cs.ownActive x }
     | none => cs      -- `VERSIONS.get(closest, cls.REGISTERS)`: unreachable, the key comes from the table
 
+/-! ### what a program can do to the class tables between selections
+
+The tables are ordinary class attributes: a program may bind `VERSIONS` / `REGISTERS` on a class
+after the class statement, or edit the dict it finds through the class. `set_version` reads the
+attributes at the time of the call. -/
+
+/-- the class whose own attribute a lookup from `c` finds (Python: the dict object that
+`C.VERSIONS` evaluates to belongs to that class) -/
+def ownerOf (own : Nat → Option α) (parent : Nat → Option Nat) : Nat → Nat → Option Nat
+  | 0, c => if (own c).isSome then some c else none
+  | fuel + 1, c =>
+    if (own c).isSome then some c
+    else
+      match parent c with
+      | some p => ownerOf own parent fuel p
+      | none => none
+
+/-- `d[k] = v` on a dict kept in insertion order -/
+def Table.set (t : Table) (k : Key) (v : Nat) : Table :=
+  if t.any (·.1 == k) then t.map (fun e => if e.1 == k then (k, v) else e) else t ++ [(k, v)]
+
+/-- `d.pop(k, None)` -/
+def Table.erase (t : Table) (k : Key) : Table := t.filter (fun e => !(e.1 == k))
+
+inductive Op where
+  /-- `C.set_version(v)` -/
+  | select (c : Nat) (v : Key)
+  /-- `C.VERSIONS = {...}`: binds the attribute on `C` itself -/
+  | assignTable (c : Nat) (t : Table)
+  /-- `C.VERSIONS[k] = lst`: edits the dict the lookup finds — `C`'s own or an ancestor's -/
+  | setItem (c : Nat) (k : Key) (lst : Nat)
+  /-- `C.VERSIONS.pop(k, None)` -/
+  | delItem (c : Nat) (k : Key)
+  /-- `C.REGISTERS = [...]` -/
+  | assignActive (c : Nat) (lst : Nat)
+
+def editTable (cs : Classes) (fuel c : Nat) (f : Table → Table) : Classes :=
+  match ownerOf cs.ownVersions cs.parent fuel c with
+  | some o => { cs with ownVersions := fun x => if x = o then (cs.ownVersions o).map f else cs.ownVersions x }
+  | none => cs     -- no table anywhere below the framework base: not modelled (the harness never does it)
+
+/-- one step of a program, with the selection function as a parameter (the code's or the statement's) -/
+def step (sel : Classes → Nat → Nat → Key → Classes) (cs : Classes) (fuel : Nat) : Op → Classes
+  | .select c v => sel cs fuel c v
+  | .assignTable c t => { cs with ownVersions := fun x => if x = c then some t else cs.ownVersions x }
+  | .setItem c k lst => editTable cs fuel c (fun t => t.set k lst)
+  | .delItem c k => editTable cs fuel c (fun t => t.erase k)
+  | .assignActive c lst => { cs with ownActive := fun x => if x = c then some lst else cs.ownActive x }
+
 end Cfi.Version
